@@ -1,7 +1,8 @@
 /-
   C13 — variant haplotypes: alternative sequence and lift-over match the edit model.
 
-  Property theorems only (helper lemmas: Proofs/VarKernel.lean, Proofs/VarAlt.lean, Proofs/VarLift.lean).
+  Property theorems only (helper lemmas: Proofs/VarKernel.lean, VarAlt.lean, VarLift.lean, VarOpt.lean, VarFull.lean,
+  VarInc.lean, VarColl.lean, VarVcf.lean).
     Spec.Variants   position-wise semantics of edits: `piece`, `image ref es lo hi` (edited image of a reference
                     range), `altOf` (literal substitution of every edit), `newPos`/`imageBlock` (where a position /
                     a block sits on the haplotype), verdict functions `okAltSeq`, `okLift`, `okIncorporate`, `okVcf`
@@ -12,10 +13,14 @@
   Coordinates in T1/T3 are those of the parent's own sequence (`off` = chunk start; 0 for a chromosome).
 -/
 import BioCantor.Proofs.VarLift
+import BioCantor.Proofs.VarFull
+import BioCantor.Proofs.VarInc
+import BioCantor.Proofs.VarColl
+import BioCantor.Proofs.VarVcf
 namespace BioCantor.Props.C13
 open BioCantor BioCantor.GenP BioCantor.Spec.Variants BioCantor.Proofs.Var
 open BioCantor.Model.Variants (Var altSeq1 altSeqN kernel liftBlocks liftSingle lift1 liftN liftSeqSingleStop slice Par
-  vcfDicts Ver convertVcf)
+  vcfDicts Ver convertVcf incorporateFeature incorporateCDS incorporateTranscript Shown Variants vcfColls groupRuns intStr)
 
 /-! ### T1 — alternative sequence = literal substitution -/
 
@@ -129,6 +134,96 @@ theorem lift_single_block_verdict (ref : Seq) (v : Var) (b ib : Blk) (st : Stran
     okLift ref [toEdit 0 v] st [b] (some (some ⟨st, [ib], onStrand st (slice (altSeq1 0 ref v) ib)⟩)) = .pass :=
   lift1_single_verdict ref v b ib st hst hv hvn hb hbn hc hne
 
+/-! ### T3, full — any number of blocks, whole-chromosome and chunk parents
+
+   `toSingleIfOne ⟨bs, st⟩` is the location object of the block list (`SingleInterval` for one block, `CompoundInterval`
+   otherwise); `Asc bs` = ascending, pairwise disjoint (0-bp gaps allowed), non-empty blocks; `BlocksOk off n v bs` =
+   every block inside the parent's window and containing the variant wholly or not at all; `InWin` = the variant lies
+   in the window.  `Reads alt st target r`: `r` is the EmptyLocation and `target` is empty, or `r` is a location on
+   strand `st` whose blocks are ascending, disjoint, non-empty, inside `alt`, and read `target` on `alt`. -/
+
+/-- T3 (full): `VariantInterval.lift_over_location` AS IT IS, through `optimize_blocks` and the re-parenting onto the
+    alternative sequence: the lifted location reads exactly the edited image of the location's reference bases. -/
+theorem lift_any_blocks (par : Par) (ref : Seq) (v : Var) (st : Strand) (bs : List Blk)
+    (hw : InWin par.off ref.length v) (hasc : Asc bs) (hbs : BlocksOk par.off ref.length v bs) (hne : bs ≠ []) :
+    ∃ r, lift1 .current par ref v (Model.toSingleIfOne ⟨bs, st⟩) = .ok r
+      ∧ Reads (altSeq1 par.off ref v) st
+          (bs.flatMap fun b => image ref [toEdit par.off v] (b.1 - par.off) (b.2 - par.off)) r :=
+  lift1_clean_full par ref v st bs hw hasc hbs hne
+
+/-- T3 in the words of the property: `extract alt (lift l) = edit (extract ref l)` on both strands (and the
+    EmptyLocation exactly when nothing is left to read). -/
+theorem lift_any_blocks_extract (par : Par) (ref : Seq) (v : Var) (st : Strand) (bs : List Blk) (hst : st ≠ .unstranded)
+    (hw : InWin par.off ref.length v) (hasc : Asc bs) (hbs : BlocksOk par.off ref.length v bs) (hne : bs ≠ []) :
+    ∃ r, lift1 .current par ref v (Model.toSingleIfOne ⟨bs, st⟩) = .ok r ∧
+      ((r = .empty ∧ imageSeq ref [toEdit par.off v] (bs.map fun b => (b.1 - par.off, b.2 - par.off)) st = [])
+       ∨ (r ≠ .empty ∧ Model.locStrand r = .ok st ∧ Asc (Model.locBlocks r) ∧ Model.locBlocks r ≠ []
+          ∧ (∀ y ∈ Model.locBlocks r, y.2 ≤ (altSeq1 par.off ref v).length)
+          ∧ Model.Variants.extract (altSeq1 par.off ref v) (Model.locBlocks r) st
+              = .ok (imageSeq ref [toEdit par.off v] (bs.map fun b => (b.1 - par.off, b.2 - par.off)) st))) :=
+  lift1_clean_extract par ref v st bs hst hw hasc hbs hne
+
+/-- T3 (full), the blocks themselves: every additive reading `g` of the answer's blocks — covered positions, slices of
+    any sequence, … — equals the same reading of the IMAGES `imgRel` of the original blocks: the lifted location is the
+    list of block images with touching images merged and empty ones dropped. -/
+theorem lift_any_blocks_images (par : Par) (ref : Seq) (v : Var) (st : Strand) (bs : List Blk)
+    (hw : InWin par.off ref.length v) (hasc : Asc bs) (hbs : BlocksOk par.off ref.length v bs) (hne : bs ≠ []) :
+    ∃ r, lift1 .current par ref v (Model.toSingleIfOne ⟨bs, st⟩) = .ok r
+      ∧ ∀ {α : Type} (g : Blk → List α), Additive g →
+          (Model.locBlocks r).flatMap g = bs.flatMap (fun b => g (imgRel par.off ref v b)) :=
+  lift1_clean_blocks par ref v st bs hw hasc hbs hne
+
+/-- … in particular it covers exactly the positions of the images (`Spec.basesPlus` = covered positions, ascending) -/
+theorem lift_any_blocks_covers (par : Par) (ref : Seq) (v : Var) (st : Strand) (bs : List Blk)
+    (hw : InWin par.off ref.length v) (hasc : Asc bs) (hbs : BlocksOk par.off ref.length v bs) (hne : bs ≠ []) :
+    ∃ r, lift1 .current par ref v (Model.toSingleIfOne ⟨bs, st⟩) = .ok r
+      ∧ Spec.basesPlus (Model.locBlocks r) = bs.flatMap (fun b => Spec.blkAsc (imgRel par.off ref v b)) :=
+  lift1_clean_positions par ref v st bs hw hasc hbs hne
+
+/-! ### incorporate_variants (one variant)
+
+   `ShownOk par alt st target sh`: the new interval is on strand `st`, its spliced sequence is `target` read on that
+   strand, its chunk-relative blocks are ascending / disjoint / non-empty / inside `alt` and read `target` there, and
+   its chromosome blocks are the chunk-relative ones moved by the chunk start. -/
+
+/-- `FeatureInterval.incorporate_variants`: the spliced sequence after incorporation is the reference spliced
+    sequence with the edit applied; an interval of which nothing remains is refused (EmptyLocationException). -/
+theorem incorporate_feature (par : Par) (ref : Seq) (v : Var) (st : Strand) (bs : List Blk) (hst : st ≠ .unstranded)
+    (hw : InWin par.off ref.length v) (hasc : Asc bs) (hbs : BlocksOk par.off ref.length v bs) (hne : bs ≠ []) :
+    let target := bs.flatMap fun b => image ref [toEdit par.off v] (b.1 - par.off) (b.2 - par.off)
+    (target = [] ∧ incorporateFeature .current par ref (.one v) (Model.toSingleIfOne ⟨bs, st⟩) = .error .EmptyLocation)
+    ∨ (target ≠ [] ∧ ∃ sh, incorporateFeature .current par ref (.one v) (Model.toSingleIfOne ⟨bs, st⟩) = .ok sh
+          ∧ ShownOk par (altSeq1 par.off ref v) st target sh) :=
+  incorporateFeature_clean par ref v st bs hst hw hasc hbs hne
+
+/-- `CDSInterval.incorporate_variants` (location and spliced sequence; frames are C05's subject) -/
+theorem incorporate_cds (par : Par) (ref : Seq) (v : Var) (st : Strand) (bs : List Blk) (hst : st ≠ .unstranded)
+    (hw : InWin par.off ref.length v) (hasc : Asc bs) (hbs : BlocksOk par.off ref.length v bs) (hne : bs ≠ []) :
+    let target := bs.flatMap fun b => image ref [toEdit par.off v] (b.1 - par.off) (b.2 - par.off)
+    (target = [] ∧ incorporateCDS .current par ref (.one v) (Model.toSingleIfOne ⟨bs, st⟩) = .error .EmptyLocation)
+    ∨ (target ≠ [] ∧ ∃ sh, incorporateCDS .current par ref (.one v) (Model.toSingleIfOne ⟨bs, st⟩) = .ok sh
+          ∧ ShownOk par (altSeq1 par.off ref v) st target sh) :=
+  incorporateCDS_clean par ref v st bs hst hw hasc hbs hne
+
+/-- `TranscriptInterval.incorporate_variants`, non-coding: exactly the feature method on the exons -/
+theorem incorporate_transcript_noncoding (ver : Ver) (par : Par) (ref : Seq) (vs : Variants) (exons : Location) :
+    incorporateTranscript ver par ref vs exons none =
+      (incorporateFeature ver par ref vs exons).bind (fun sh => .ok (sh, none)) :=
+  incorporateTranscript_noncoding ver par ref vs exons
+
+/- coding transcripts, full statement: for exons and CDS both clean w.r.t. the variant the call returns the pair
+   (feature result on the exons, CDS result) unless one of them is deleted entirely.  Proved below (`_partial`): whenever
+   the call returns, its two parts ARE the results of the feature / CDS methods, to which `incorporate_feature` and
+   `incorporate_cds` apply.  Not proved: that the constructor's CDS-bounds check cannot fire for a CDS contained in
+   the exons (it needs monotonicity of the image across the two block lists); that leg is correspondence + `okIncorporate`. -/
+
+/-- coding transcript (`_partial`, see above) -/
+theorem incorporate_transcript_parts_partial (ver : Ver) (par : Par) (ref : Seq) (vs : Variants) (exons c : Location)
+    (sh : Shown) (oc : Option Shown) (h : incorporateTranscript ver par ref vs exons (some c) = .ok (sh, oc)) :
+    incorporateFeature ver par ref vs exons = .ok sh ∧
+      ∃ sc, oc = some sc ∧ incorporateCDS ver par ref vs c = .ok sc :=
+  incorporateTranscript_parts ver par ref vs exons c sh oc h
+
 /-! ### T5 — collections: sequential ascending application -/
 
 /-- T5 (positive part, `_partial`): when every variant before the last keeps the length, the sequential application
@@ -139,6 +234,27 @@ theorem sequential_ok_partial (pre : List Var) (v : Var) (b : Blk) (st : Strand)
     (hpre : ∀ u ∈ pre, (u.alt.length : Int) - ((u.e : Int) - (u.s : Int)) = 0) :
     liftSeqSingleStop (pre ++ [v]) (.single b st) = liftSingle v (.single b st) :=
   liftSeqSingleStop_prefix pre v b st hb hpre
+
+/-- T5 (positive part through the real entry point, `_partial`: single-block locations on a whole chromosome).
+    `Transparent u b`: `u` keeps the length or lies wholly to the right of the block.  If every variant of a sorted
+    disjoint collection is wholly inside or outside the block and every variant before the right-most one is
+    transparent — the complement of the shape of finding F-C13a — `VariantIntervalCollection.lift_over_location` AS IT
+    IS returns the image of the block under ALL edits (the EmptyLocation when nothing remains). -/
+theorem collection_transparent_single_partial (ref : Seq) (pre : List Var) (v : Var) (b : Blk) (st : Strand)
+    (hb : b.1 < b.2) (hbn : b.2 ≤ ref.length)
+    (hch : Chain ref.length ((pre ++ [v]).map (toEdit 0)))
+    (hpre : ∀ u ∈ pre, Clean u b ∧ Transparent u b) (hv : Clean v b) :
+    liftN .current .whole ref (pre ++ [v]) (.single b st) =
+      (match nonEmpty (imageBlock ref ((pre ++ [v]).map (toEdit 0)) b) with
+       | some ib => .ok (.single ib st)
+       | none => .ok .empty) :=
+  liftN_transparent_single ref pre v b st hb hbn hch hpre hv
+
+/-- … and that block reads, on the collection's alternative sequence, the edited image under all edits -/
+theorem collection_block_reads_edit (ref : Seq) (vs : List Var) (b : Blk) (hne : vs ≠ []) (hb : b.1 ≤ b.2)
+    (hbn : b.2 ≤ ref.length) (hch : Chain ref.length (vs.map (toEdit 0))) :
+    slice (altSeqN 0 ref vs) (imageBlock ref (vs.map (toEdit 0)) b) = image ref (vs.map (toEdit 0)) b.1 b.2 :=
+  collection_block_reads ref vs b hne hb hbn hch
 
 def refW : Seq := "GCTTCCAAGGTTACGTACGTTTGACC".toList
 def v1 : Var := ⟨2, 6, ['C', 'A']⟩
@@ -187,6 +303,27 @@ theorem vcf_one_variant_per_alt (r : Model.Variants.VcfRec) :
   obtain ⟨a, _, rfl⟩ := hd
   exact ⟨rfl, rfl, rfl⟩
 
+/-- T4 (one chromosome, ANY records with non-negative phase sets; `dictsOf recs` = one variant per ALT allele in record
+    order): the call succeeds; the collections' variants are a permutation of all variants (each lies in exactly one
+    collection); a collection is one unphased variant without id, or carries its phase set as id and only variants of
+    that phase set; all variants of one phase set are in ONE collection. -/
+theorem vcf_partition (chrom : List Char) (recs : List Model.Variants.VcfRec)
+    (hps : ∀ r ∈ recs, ∀ n, r.ps = .val n → 0 ≤ n) :
+    ∃ cs, vcfColls .current chrom recs = some cs
+      ∧ (cs.flatMap (·.vars)).Perm (dictsOf recs)
+      ∧ (∀ c ∈ cs, c.seqName = chrom ∧
+            ((c.id = none ∧ ∃ d, c.vars = [d] ∧ d.phase = .absent)
+             ∨ ∃ n, c.id = some (intStr n) ∧ c.vars ≠ [] ∧ ∀ d ∈ c.vars, d.phase = .val n))
+      ∧ (∀ n, ∀ c1 ∈ cs, ∀ c2 ∈ cs, (∃ d ∈ c1.vars, d.phase = .val n) → (∃ e ∈ c2.vars, e.phase = .val n) → c1 = c2) :=
+  vcfColls_partition chrom recs hps
+
+/-- T4 (all chromosomes): `convert_vcf_records_to_model` AS IT IS never fails on such records, and every entry of its
+    result is the collection list of one run of consecutive records of that chromosome (`vcf_partition` applies). -/
+theorem vcf_total (recs : List Model.Variants.VcfRec) (hps : ∀ r ∈ recs, ∀ n, r.ps = .val n → 0 ≤ n) :
+    ∃ out, convertVcf .current recs = some out
+      ∧ ∀ p ∈ out, ∃ g ∈ groupRuns recs, p.1 = g.1 ∧ vcfColls .current g.1 g.2 = some p.2 :=
+  convertVcf_total recs hps
+
 /-- since c293a73 a missing PS value is read like an absent PS field: the two records of the former finding F-C13c
     become two unphased singleton collections (before: the model had no answer — Python raised TypeError) -/
 theorem vcf_missing_ps_witness :
@@ -196,6 +333,29 @@ theorem vcf_missing_ps_witness :
   refine ⟨by decide, by decide⟩
 
 -- non-vacuity of the hypotheses
+example : InWin (Par.chunk 100).off refW.length ⟨102, 106, ['C', 'A']⟩ := ⟨by decide, by decide, by decide⟩
+example : ∃ r, lift1 .current (.chunk 100) refW ⟨102, 106, ['C', 'A']⟩
+      (.compound ⟨[(101, 108), (108, 112), (120, 126)], .minus⟩) = .ok r ∧ r ≠ .empty := by
+  have hasc : Asc [(101, 108), (108, 112), (120, 126)] := ⟨by decide, by decide⟩
+  have hok : BlocksOk 100 refW.length ⟨102, 106, ['C', 'A']⟩ [(101, 108), (108, 112), (120, 126)] := by
+    intro b hb
+    simp only [List.mem_cons, List.mem_nil_iff, or_false] at hb
+    rcases hb with rfl | rfl | rfl <;> decide
+  obtain ⟨r, h1, h2⟩ := lift_any_blocks (.chunk 100) refW ⟨102, 106, ['C', 'A']⟩ .minus _
+    ⟨by decide, by decide, by decide⟩ hasc hok (by simp)
+  refine ⟨r, h1, ?_⟩
+  rcases h2 with ⟨_, ht⟩ | ⟨hne, _⟩
+  · exact absurd ht (by decide)
+  · exact hne
+example : Transparent ⟨13, 15, ['A', 'G']⟩ (3, 20) ∧ Transparent ⟨22, 24, []⟩ (3, 20) ∧ Clean ⟨13, 15, ['A', 'G']⟩ (3, 20) := by
+  unfold Transparent; decide
+example : ∀ r ∈ ([⟨['c'], 5, 6, .val 7, [(['A'], ['S'])]⟩, ⟨['c'], 9, 9, .missing, [([], ['D']), (['T'], ['D'])]⟩] :
+    List Model.Variants.VcfRec), ∀ n, r.ps = .val n → 0 ≤ n := by
+  intro r hr n hn
+  simp only [List.mem_cons, List.mem_nil_iff, or_false] at hr
+  rcases hr with rfl | rfl
+  · simp only [Model.Variants.PS.val.injEq] at hn; omega
+  · simp at hn
 example : Chain refW.length ([v1, v2].map (toEdit 0)) := by
   simp only [List.map, Chain, toEdit, v1, v2]; decide
 example : Chain 26 ([⟨102, 106, ['C']⟩, ⟨113, 115, []⟩].map (toEdit 100)) := by
